@@ -94,4 +94,7 @@ func runC08(c *Ctx, r *Report) {
 	// pooled contexts: a context used before it is bound is a nil dereference, one returned twice is
 	// handed to two users and can become its own parent (unbounded recursion)
 	c05PoolTypestate(c, r, "C08")
+	// a dropped ok result lets an unparsed argument through as its zero value (nil stage: crash on evaluation)
+	okResultLive(c, r, "C08/ok-live", "rare/pkg/expressions")
+	c19UnaryAgreement(c, r, "C08/unary-agreement")
 }
